@@ -207,6 +207,12 @@ def solve_one(job):
             if r3 == 'unsat':
                 res.update(status='unsat', backend='cvc5-1.0.3', time=time.time() - t0)
                 return res
+            # z3 4.8 early with a short budget as well: its quantifier instantiation differs from 5.x (decides some
+            # forall-exists invariants of c_delineate_area#reach in 0.1 s that every 5.x configuration times out on)
+            r3 = run_cli('z3old', smt2, min(5000, timeout // 4))
+            if r3 == 'unsat':
+                res.update(status='unsat', backend='z3-4.8.12', time=time.time() - t0)
+                return res
         if 'forall' in smt2 and timeout >= RETRY_MIN_BUDGET:
             # E-matching again with a longer budget, before the (slow, rarely successful on these) default strategy
             for seed in (0, 1, 2):
